@@ -5,20 +5,45 @@
 (* Family "sims": the Raman documents under every simulation-parameter setting                                   *)
 (*   raman flag x method x order x two resolution pairs x NLI method / computed channels (48 settings),          *)
 (* which the harness also replays (B2) around the real designed_network().                                       *)
+(* The "replay" documents (part of the families "docs" / "docsq"): an 80 km line whose two amplifiers carry every   *)
+(* pattern of given / missing gain, delta_p, output VOA and amplifier model, the ingress ROADM every pair of        *)
+(* default / per-degree equalisation flavour, and ROADMs that restrict the models the design may select.  They are  *)
+(* emitted (B2) and go through the real life cycle as  trx A - roadm A - amp 1 - fibre - amp 2 - roadm B - trx B    *)
+(* (roadm A has a second degree towards a third site).                                                             *)
 EXTENDS DesignLifecycle, Json
 
 CONSTANT Family                       \* "docs" | "docsq" (quick tier: a sample of the documents) | "sims"
 
-AmpSlots == {[gain |-> gv, dp |-> d, voa |-> v] : gv \in {NONE, 18}, d \in {NONE, 1}, v \in {NONE, 2}}
-MCDocsAll == {[base |-> b, conOut |-> c, attIn |-> a, aged |-> FALSE, raman |-> r, amps |-> <<a1, a2>>] :
+AmpSlots == {[gain |-> gv, dp |-> d, voa |-> v, known |-> FALSE] : gv \in {NONE, 18}, d \in {NONE, 1}, v \in {NONE, 2}}
+\* power equalisation, no per-degree target, no restriction on the amplifier models (the library default)
+DefaultRoadm == [def |-> "power", deg |-> NoTarget, other |-> NoTarget, restrict |-> FALSE]
+MCDocsAll == {[base |-> b, conOut |-> c, attIn |-> a, aged |-> FALSE, raman |-> r, roadm |-> DefaultRoadm, amps |-> <<a1, a2>>] :
                 b \in {4, 16}, c \in {NONE, 0, 1}, a \in {0, 3}, r \in BOOLEAN, a1 \in AmpSlots, a2 \in AmpSlots}
 MCDocsRaman == {d \in MCDocsAll : d.raman /\ d.base = 16 /\ d.conOut = 1 /\ d.attIn = 0
-                                  /\ d.amps[1] \in {[gain |-> NONE, dp |-> NONE, voa |-> NONE], [gain |-> 18, dp |-> 1, voa |-> 2]}
+                                  /\ d.amps[1] \in {[gain |-> NONE, dp |-> NONE, voa |-> NONE, known |-> FALSE],
+                                                     [gain |-> 18, dp |-> 1, voa |-> 2, known |-> FALSE]}
                                   /\ d.amps[2].dp = NONE /\ d.amps[2].voa = NONE}
 \* quick-tier sample: the second amplifier either fully designed by the user or left entirely to the design
 MCDocsQuick == {d \in MCDocsAll : d.conOut # 0 /\ (d.amps[2].gain = NONE) = (d.amps[2].dp = NONE)
                                    /\ (d.amps[2].gain = NONE) = (d.amps[2].voa = NONE)}
-MCDocs == IF Family = "docs" THEN MCDocsAll ELSE IF Family = "docsq" THEN MCDocsQuick ELSE MCDocsRaman
+\* ---- replay documents.  SlotOf(0..15): bit 3 gain given, bit 2 delta_p given, bit 1 output VOA given, bit 0 model given
+SlotOf(i) == [gain |-> IF (i \div 8) % 2 = 1 THEN 18 ELSE NONE, dp |-> IF (i \div 4) % 2 = 1 THEN 1 ELSE NONE,
+              voa |-> IF (i \div 2) % 2 = 1 THEN 2 ELSE NONE, known |-> i % 2 = 1]
+Line(r, a1, a2) == [base |-> 16, conOut |-> NONE, attIn |-> 0, aged |-> FALSE, raman |-> FALSE, roadm |-> r, amps |-> <<a1, a2>>]
+Equalised == {[DefaultRoadm EXCEPT !.def = f, !.deg = g] : f \in Flavours, g \in Flavours \cup {NoTarget}}
+Restricted == [DefaultRoadm EXCEPT !.restrict = TRUE]
+\* quick: every slot pattern once at either amplifier (the other one 5 resp. 6 patterns further); every flavour pair with
+\* automatic amplifiers; every pattern without a model under the restriction
+MCReplayQuick == {Line(DefaultRoadm, SlotOf(i), SlotOf((i + 5) % 16)) : i \in 0..15}
+                 \cup {Line(r, SlotOf(0), SlotOf(0)) : r \in Equalised}
+                 \cup {Line(Restricted, SlotOf(2 * i), SlotOf((2 * i + 6) % 16)) : i \in 0..7}
+\* thorough: every pair of patterns; flavour pairs also with a user delta_p on the booster; every pair without a model
+\* under the restriction
+MCReplayAll == {Line(DefaultRoadm, SlotOf(i), SlotOf(j)) : i \in 0..15, j \in 0..15}
+               \cup {Line(r, SlotOf(i), SlotOf(0)) : r \in Equalised, i \in {0, 4, 5}}
+               \cup {Line(Restricted, SlotOf(2 * i), SlotOf(2 * j)) : i \in 0..7, j \in 0..7}
+MCReplay == IF Family = "docs" THEN MCReplayAll ELSE IF Family = "docsq" THEN MCReplayQuick ELSE {}
+MCDocs == (IF Family = "docs" THEN MCDocsAll ELSE IF Family = "docsq" THEN MCDocsQuick ELSE MCDocsRaman) \cup MCReplay
 
 MCCfgsAll == {[eol |-> e, padding |-> p, powerMode |-> m] : e \in {0, 1}, p \in {0, 10}, m \in BOOLEAN}
 MCCfgs == IF Family \in {"docs", "docsq"} THEN MCCfgsAll ELSE {[eol |-> 0, padding |-> 10, powerMode |-> m] : m \in BOOLEAN}
@@ -34,8 +59,12 @@ MCSimsAll == {[flag |-> f, method |-> m, order |-> o, resultRes |-> r[1], solver
                  r \in {<<10000, 10000>>, <<20000, 2000>>}, n \in Nli}
 MCSims == IF Family \in {"docs", "docsq"} THEN {Default} ELSE MCSimsAll
 
-\* B2: the simulation-parameter settings, one line each (initial states of the "sims" family)
+\* B2: the simulation-parameter settings, one line each (initial states of the "sims" family); the replay documents
+\* under padding 10 / EOL 0 in both design modes (initial states of the "docs" / "docsq" families)
 EmitDoc == CHOOSE d \in MCDocs : TRUE
-Emit == ~(pc = "fibre" /\ round = 0 /\ doc0 = EmitDoc /\ cfg.powerMode)
-        \/ PrintT("@@" \o ToJson(simParams))
+Emit == IF Family = "sims"
+        THEN ~(pc = "roadm" /\ round = 0 /\ doc0 = EmitDoc /\ cfg.powerMode)
+             \/ PrintT("@@" \o ToJson(simParams))
+        ELSE ~(pc = "roadm" /\ round = 0 /\ proc = "fresh" /\ doc0 \in MCReplay /\ cfg.eol = 0 /\ cfg.padding = 10)
+             \/ PrintT("@@" \o ToJson([doc |-> doc0, cfg |-> cfg]))
 ==============================================================================
